@@ -79,6 +79,26 @@ fn drive(sel: &dyn AnySel, pop: &Pop, weights: &[u32], draws: u64, cfg: &str, rn
             }
         }
     }
+    // on an empty population: an all-zero combination still reports its zero-weight error, any
+    // other delegates to exactly one positive-weight member (whose own error comes back)
+    {
+        let empty: Pop = Vec::new();
+        for h in 0..6u64 {
+            take_leaf_log();
+            let out = sel.sel(&empty, &mut TraceRng::stream(mix(fnv_str(cfg), h)));
+            let log = take_leaf_log();
+            rep.eval();
+            let ok = if total == 0 {
+                log.is_empty() && matches!(&out, SelOut::Err(t) if err_tokens(t).iter().any(|x| *x == "ZeroWeight" || *x == "InsufficientNonZero"))
+            } else {
+                log.len() == 1 && weights[log[0]] > 0 && matches!(&out, SelOut::Err(t) if t.contains("MarkerOutOfRange"))
+            };
+            if !ok {
+                rep.violation("C13/delegation-on-empty-population", || json!({"config": cfg, "weight_total": total, "members_called": log, "observed": format!("{out:?}")}));
+                return;
+            }
+        }
+    }
     let mut used = vec![0u64; k];
     for d in 0..draws {
         take_leaf_log();
